@@ -290,7 +290,7 @@ func VerifC04Frame() {
 	// optional junk between the last argument and the end of the line: symbolic bytes (no
 	// CR/LF/'{': those would start further lines or literals and change the framing) or
 	// concrete command-like text
-	nj := nd.Concretize(nd.Choice(nd.Param("junk") + 1 + 2*nd.Param("cjunk")))
+	nj := nd.Concretize(nd.Choice(nd.Param("junk") + 1 + 3*nd.Param("cjunk")))
 	if nj > 0 {
 		var junk []byte
 		switch {
@@ -298,6 +298,10 @@ func VerifC04Frame() {
 			junk = []byte("x y")
 		case nj == nd.Param("junk")+2:
 			junk = []byte(" Z7 NOOP")
+		case nj == nd.Param("junk")+3:
+			// a zero-length non-synchronising literal inside the junk: the command line
+			// continues after its header, so "Z7 NOOP" is still part of command A1
+			junk = []byte(" {0+}\r\nZ7 NOOP")
 		default:
 			junk = make([]byte, nj)
 			for i := range junk {
